@@ -116,6 +116,35 @@ pub fn family_source(fam: &str, k: usize) -> String {
     format!("{DECLS}def add(p: i64, q: i64): i64 {{ p + q }}\ndef f(n: i64, l: List[i64], w: Tri): i64 {{ {body} }}\ndef main(n: i64): i64 {{ println_i64(f(n, Cons(n, Nil), T2(n, 3))); 0 }}\n")
 }
 
+/// One-hole contexts (hole and result of type i64; `I` is the nesting index, so binders are distinct).
+pub const CONTEXTS: [(&str, &str); 15] = [
+    ("let_if", "let v@: i64 = if n == @ { n + @ } else { n - @ }; (#) + v@"),
+    ("let_case", "let v@: i64 = l.case[i64] { Nil => @, Cons(h, t) => h + @ }; (#) + v@"),
+    ("if_then", "if n == @ { # } else { @ }"),
+    ("if_else", "if n == @ { @ } else { # }"),
+    ("clause2", "l.case[i64] { Nil => @, Cons(h@, t@) => # }"),
+    ("clause3", "w.case { T0 => @, T1(a@) => a@ + @, T2(a@, b@) => # }"),
+    ("let_call_case", "let x@: List[i64] = upto(n + @); x@.case[i64] { Nil => @, Cons(h@, t@) => # }"),
+    ("let_call_if", "let y@: i64 = add(n, @); if y@ == 0 { @ } else { # }"),
+    ("closure_body", "(new { ap(q@) => q@ + (#) }).ap[i64, i64](@)"),
+    ("label_goto", "label k@ { if n == @ { goto k@ (@) } else { # } }"),
+    ("call_arg", "add(#, @)"),
+    ("call_arg_after_case", "add(l.case[i64] { Nil => @, Cons(h, t) => h }, #)"),
+    ("let_if_data_case", "let o@: Tri = if n == @ { T0 } else { T1(@) }; o@.case { T0 => @, T1(a@) => #, T2(a@, b@) => @ }"),
+    ("let_if_codata_ap", "let f@: Fun[i64, i64] = if n == @ { new { ap(q) => q } } else { new { ap(q) => q + @ } }; f@.ap[i64, i64](#)"),
+    ("print_seq", "(println_i64(@); #)"),
+];
+
+/// `k` applications of the contexts `a, b, a, b, ...` around a leaf.
+pub fn context_source(a: usize, b: usize, k: usize) -> String {
+    let mut t = String::from("n");
+    for i in (0..k).rev() {
+        let c = if i % 2 == 0 { CONTEXTS[a].1 } else { CONTEXTS[b].1 };
+        t = c.replace('@', &i.to_string()).replace('#', &t);
+    }
+    format!("{DECLS}def add(p: i64, q: i64): i64 {{ p + q }}\ndef upto(k: i64): List[i64] {{ if k <= 0 {{ Nil }} else {{ Cons(k, upto(k - 1)) }} }}\ndef f(n: i64, l: List[i64], w: Tri): i64 {{ {t} }}\ndef main(n: i64): i64 {{ println_i64(f(n, Cons(n, Nil), T2(n, 3))); 0 }}\n")
+}
+
 fn sum_vars(k: usize) -> String {
     let mut s = String::from("0");
     for i in 0..k {
@@ -135,11 +164,13 @@ fn instruction_count(text: &str) -> usize {
 
 pub fn sizes(src: &str) -> Result<Vec<(&'static str, usize)>, StageError> {
     let st = pipeline::all_stages(src)?;
+    // printed size without layout (indentation grows with the nesting depth and is not program size)
+    let ink = |t: String| t.chars().filter(|c| !c.is_whitespace()).count();
     let mut v = vec![
-        ("core", st.core.print_to_string(None).len()),
-        ("focused", st.focused.print_to_string(None).len()),
-        ("shrunk", st.shrunk.print_to_string(None).len()),
-        ("linearized", st.linear.print_to_string(None).len()),
+        ("core", ink(st.core.print_to_string(None))),
+        ("focused", ink(st.focused.print_to_string(None))),
+        ("shrunk", ink(st.shrunk.print_to_string(None))),
+        ("linearized", ink(st.linear.print_to_string(None))),
     ];
     for (name, arch) in [("x86_64", Arch::X86), ("aarch64", Arch::A64)] {
         let (text, _) = codegen(st.linear.clone(), arch)?;
@@ -148,16 +179,13 @@ pub fn sizes(src: &str) -> Result<Vec<(&'static str, usize)>, StageError> {
     Ok(v)
 }
 
-pub fn worker(ctx: &WorkerCtx) -> Report {
-    let mut rep = Report::default();
-    let kmax = if ctx.tier.thorough() { 16 } else { 12 };
-    for (fi, fam) in FAMILIES.iter().enumerate() {
-        if !ctx.mine(fi as u64) {
-            continue;
-        }
+
+/// `step` = 1: compare consecutive depths from depth 8 on; `step` = 2 (two alternating contexts):
+/// compare depths of equal parity from depth `kmax / 2 + 2` on.
+fn measure_family(fam: &str, kmax: usize, step: usize, source: &dyn Fn(usize) -> String, rep: &mut Report) {
         let mut table: Vec<(usize, usize, Vec<(&'static str, usize)>)> = Vec::new();
         for k in 1..=kmax {
-            let src = family_source(fam, k);
+            let src = source(k);
             rep.count("cases", 1);
             rep.count("evaluations", 1);
             rep.distinct.push(hash64(&src));
@@ -173,10 +201,11 @@ pub fn worker(ctx: &WorkerCtx) -> Report {
             }
         }
         // growth ratio from depth 8 on, and the quadratic cap at the deepest level
-        for w in table.windows(2) {
+        let from = if step == 1 { 8 } else { kmax / 2 + 2 };
+        for w in table.windows(step + 1) {
             let (k0, _, s0) = &w[0];
-            let (k1, _, s1) = &w[1];
-            if *k0 < 8 || *k1 != k0 + 1 {
+            let (k1, _, s1) = &w[step];
+            if *k0 < from || *k1 != k0 + step {
                 continue;
             }
             for ((stage, a), (_, b)) in s0.iter().zip(s1.iter()) {
@@ -200,6 +229,32 @@ pub fn worker(ctx: &WorkerCtx) -> Report {
             }
             rep.sample(json!({"family": fam, "depth": k, "source_chars": srclen, "sizes": s.iter().map(|(n, v)| json!({"stage": n, "size": v})).collect::<Vec<_>>()}));
             rep.outcomes.insert(format!("{fam}/measured-to-depth-{k}"));
+        }
+}
+
+pub fn worker(ctx: &WorkerCtx) -> Report {
+    let mut rep = Report::default();
+    let kmax = if ctx.tier.thorough() { 16 } else { 12 };
+    for (fi, fam) in FAMILIES.iter().enumerate() {
+        if !ctx.mine(fi as u64) {
+            continue;
+        }
+        measure_family(fam, kmax, 1, &|k| family_source(fam, k), &mut rep);
+    }
+    // every single context and every ordered pair of distinct contexts, alternating
+    let mut idx = FAMILIES.len() as u64;
+    for a in 0..CONTEXTS.len() {
+        for b in 0..CONTEXTS.len() {
+            idx += 1;
+            if !ctx.mine(idx) {
+                continue;
+            }
+            let name = if a == b { format!("ctx/{}", CONTEXTS[a].0) } else { format!("ctx/{}+{}", CONTEXTS[a].0, CONTEXTS[b].0) };
+            if a == b {
+                measure_family(&name, kmax, 1, &|k| context_source(a, b, k), &mut rep);
+            } else {
+                measure_family(&name, 2 * kmax, 2, &|k| context_source(a, b, k), &mut rep);
+            }
         }
     }
     rep
